@@ -44,6 +44,7 @@ type EngScenario struct {
 	ILook    []int      `json:"ilook"`    // per node: the component its Init() looks up by name through the App (0 = none)
 	Procs    []bool     `json:"procs"`    // user post-processors that are components themselves; true = LazyInit
 	Mode     []string   `json:"mode"`     // per node: normal | beforeNil | shortcut (lifecycle imposed by the rig processor)
+	Extra    bool       `json:"extra"`    // processors.NewDependencyTypeAwarePostProcessors() registered next to the default collector (no action in the spec)
 	Quiet    bool       `json:"quiet"`    // a user instantiation-aware processor ordered FIRST that answers false to PostProcessAfterInstantiation
 	Runners  []int      `json:"runners"`  // nodes that are application runners (held by the App's runner slice)
 	ROrder   []int      `json:"rorder"`   // the runner nodes in candidate iteration order (computed here from order)
@@ -631,6 +632,9 @@ func runEngScenario(sc *EngScenario) []map[string]any {
 	}
 	if sc.Quiet {
 		ordered = append(ordered, &quietProc{})
+	}
+	if sc.Extra {
+		ordered = append(ordered, processors.NewDependencyTypeAwarePostProcessors())
 	}
 	for i, lazy := range sc.Procs {
 		if lazy {
